@@ -16,6 +16,7 @@ import z3
 from .common import Harness, zbool, instrumented
 
 PROPERTY = 'C19'
+LEVEL = 'exploration'      # the solver enumerates a schedule / skeleton; the data of a path are concrete (DESIGN.md section 4)
 STMTS = [['x = 1'], ['print(x)'], ['y = (', '    2)'], ["s = '''a", "b'''"], ['from os import *'], ['from os.path import *'],
          ['# just a comment'], ['if x:', '    z = 3', ''], ['import os  # not a star import *'], ["t = 'from m import *'"]]
 WANTS = [None, ['1'], ['line a', 'line b'], ['# looks like a comment']]
